@@ -246,13 +246,34 @@ func (lsys *LinkSystem) Store(lnkCtx LinkContext, lp datamodel.LinkPrototype, n 
 	if err != nil {
 		return nil, err
 	}
-	tee := io.MultiWriter(writer, hasher)
+	tee := &firstErrWriter{w: io.MultiWriter(writer, hasher)}
 	err = encoder(n, tee)
+	if err == nil {
+		// Not every encoder reports a failed write; never commit a block that was not fully written.
+		err = tee.err
+	}
 	if err != nil {
 		return nil, err
 	}
 	lnk := lp.BuildLink(hasher.Sum(nil))
 	return lnk, commitFn(lnk)
+}
+
+// firstErrWriter remembers the first error returned by the writer it wraps.
+type firstErrWriter struct {
+	w   io.Writer
+	err error
+}
+
+func (w *firstErrWriter) Write(p []byte) (int, error) {
+	if w.err != nil {
+		return 0, w.err
+	}
+	n, err := w.w.Write(p)
+	if err != nil {
+		w.err = err
+	}
+	return n, err
 }
 
 func (lsys *LinkSystem) MustStore(lnkCtx LinkContext, lp datamodel.LinkPrototype, n datamodel.Node) datamodel.Link {
